@@ -167,7 +167,12 @@ func genIncludeGraph(p *PRNG) *Case {
 		}
 		files[n] = []byte(b.String())
 	}
-	return &Case{Op: "proj", Files: files, Dirs: []string{"sub", "emptydir"}, Root: "root.jst", Tag: "include-graph", Args: []string{"tree"}}
+	c := &Case{Op: "proj", Files: files, Dirs: []string{"sub", "emptydir"}, Root: "root.jst", Tag: "include-graph", Args: []string{"tree"}}
+	if p.Chance(1, 3) {
+		c.RootSpelling = Pick(p, []string{"./root.jst", ".//root.jst", "sub/../root.jst", "./sub/.././root.jst"})
+		c.Tag = "include-graph-rootspelling"
+	}
+	return c
 }
 
 func init() {
